@@ -25,7 +25,7 @@ EXPLANATION = (
 NOT_DECIDED = ["that every bonded pair ends at its minimum-image separation (depends on bond graph order and cell, numerical)",
                "anchor heuristics (guess_anchor_molecules)"]
 ASSUMPTIONS = ["Trajectory.__getitem__ (self[:]) returns a deep copy (decided by C03-R1)", "roundf / floorf / np.round / np.floor return integer-valued floats"]
-FLOORS = {"C11-R1": 6, "C11-R2": 18, "C11-R3": 5, "C11-R4": 2, "C11-R5": 3}
+FLOORS = {"C11-R1": 6, "C11-R2": 18, "C11-R3": 5, "C11-R4": 4, "C11-R5": 3}
 
 PXI = "mdtraj/geometry/src/image_molecules.pxi"
 TRAJ = "mdtraj/core/trajectory.py"
@@ -44,48 +44,16 @@ def check(ctx):
     flag_identity(ctx, "C11-R1", [TRAJ], name_filter=lambda q: q in ("Trajectory.image_molecules", "Trajectory.make_molecules_whole"), floor=2)
     r5_molecules(ctx)
 
-    # ---------------- R1, R3(py), R4 ----------------------------------------------------------------
+    # ---------------- R1, R3(py), R4: by evaluation on a model trajectory --------------------------------
+    r1_by_evaluation(ctx)
+    r4_no_topology_memo_on_trajectory(ctx)
     for mname, kernel in (("make_molecules_whole", "_geometry.whole_molecules"), ("image_molecules", "_geometry.image_molecules")):
         fn = ctx.py.func(TRAJ, "Trajectory." + mname)
-        q = "Trajectory." + mname
-        cfg = CFG(fn)
         calls = [n for n in walk_no_nested(fn) if isinstance(n, ast.Call) and call_name(n) == kernel]
-        if not calls:
-            ctx.undecided("C11-R1", fn, TRAJ, q, kernel, "kernel call not found")
-            continue
-        k = calls[0]
-        ctx.decide(src(k.args[0]) == "result.xyz", "C11-R1", k, TRAJ, q, "kernel receives result.xyz", "", "kernel receives `%s`" % src(k.args[0]))
-        # result = self under `if inplace`, else self[:]
-        ifs = [n for n in walk_no_nested(fn) if isinstance(n, ast.If) and src(n.test) == "inplace"
-               and any(isinstance(s, ast.Assign) and dotted(s.targets[0]) == "result" for s in n.body)]
-        ok = False
-        if ifs:
-            tb = [s for s in ifs[0].body if isinstance(s, ast.Assign) and dotted(s.targets[0]) == "result"]
-            eb = [s for s in ifs[0].orelse if isinstance(s, ast.Assign) and dotted(s.targets[0]) == "result"]
-            ok = bool(tb) and bool(eb) and src(tb[0].value) == "self" and isinstance(eb[0].value, ast.Subscript) and dotted(eb[0].value.value) == "self" \
-                and src(eb[0].value.slice) in (":", "slice(None)")
-            other = [n for n in walk_no_nested(fn) if isinstance(n, ast.Assign) and dotted(n.targets[0]) == "result" and n not in tb + eb]
-            ok = ok and not other
-        ctx.decide(ok, "C11-R1", ifs[0] if ifs else fn, TRAJ, q, "result = self if inplace else self[:]", "",
-                   "`result` is not (self when inplace / a full deep-copying slice otherwise): with inplace=False the original trajectory is modified")
-        rets = [n for n in walk_no_nested(fn) if isinstance(n, ast.Return) and n.value is not None]
-        ok = any(src(r.value) == "result" for r in rets) and all(src(r.value) in ("result", "self") for r in rets)
-        par_ok = True
-        mod = ctx.py.mod(TRAJ)
-        for r in rets:
-            if src(r.value) == "result":
-                p = mod.parents.get(r)
-                par_ok = par_ok and isinstance(p, ast.If) and src(p.test) in ("not inplace",)
-        ctx.decide(ok and par_ok, "C11-R1", fn, TRAJ, q, "returns the copy when not inplace", "", "the non-inplace path does not return the modified copy")
-        box = [n for n in walk_no_nested(fn) if isinstance(n, ast.Assign) and dotted(n.targets[0]) == "box"]
-        ok = bool(box) and "result.unitcell_vectors" in src(box[0].value) and src(k.args[1]) == "box"
-        ctx.decide(ok, "C11-R3", k, TRAJ, q, "kernel receives a derived cell array", "np.asarray(result.unitcell_vectors)", "the cell passed to the kernel is `%s`" % src(k.args[1]))
-        sb = [n for n in walk_no_nested(fn) if isinstance(n, ast.Assign) and dotted(n.targets[0]) == "sorted_bonds" and isinstance(n.value, ast.Call) and call_name(n.value) == "sorted"]
-        ok = False
-        if sb:
-            key = kwarg(sb[0].value, "key")
-            ok = key is not None and isinstance(key, ast.Lambda) and re.sub(r"\s", "", src(key.body)) in ("bond[0].index", "b[0].index") and "bonds" in src(sb[0].value.args[0])
-        ctx.decide(ok, "C11-R4", sb[0] if sb else fn, TRAJ, q, "bonds sorted by first atom index", "", "default sorted_bonds is not sorted by the first atom's index: make_whole's single pass can leave molecules broken")
+        if calls:
+            a1 = calls[0].args[1]
+            fresh = isinstance(a1, ast.Name) and any(isinstance(n, ast.Assign) and dotted(n.targets[0]) == a1.id and isinstance(n.value, ast.Call) and (call_name(n.value) or "").startswith("np.") for n in walk_no_nested(fn))
+            ctx.decide(fresh, "C11-R3", calls[0], TRAJ, "Trajectory." + mname, "kernel receives a derived cell array (np.asarray(...) of the computed unitcell_vectors)", "", "the cell passed to the kernel is `%s`" % src(a1))
 
     # ---------------- R2 --------------------------------------------------------------------------------
     mod = ctx.py.mod(PXI)
@@ -213,10 +181,138 @@ def r5_molecules(ctx):
                "the adjacency built from the bonds is %s: with one direction only, an atom whose bonded partners all have higher (or lower) indices starts a molecule of its own, "
                "and image_molecules moves the pieces of one molecule by different lattice vectors" % sorted(apps))
     # every atom receives a molecule: the outer loop ranges over all atoms and starts a search from each untagged one
-    outer = [n for n in walk_no_nested(fn) if isinstance(n, ast.For) and src(n.iter) == "range(num_atoms)"]
-    ok = bool(outer) and any(isinstance(n, ast.If) and src(n.test) == "atom_molecule[i] == -1" for n in outer[0].body)
+    outer = [n for n in walk_no_nested(fn) if isinstance(n, ast.For) and isinstance(n.target, ast.Name) and isinstance(n.iter, ast.Call) and call_name(n.iter) == "range" and len(n.iter.args) == 1
+             and src(n.iter.args[0]) in ("num_atoms", "self.n_atoms", "self._numAtoms", "len(self._atoms)")]
+    # the untagged test is on the loop's own variable, whatever it is called: `<tags>[v] == -1`
+    ok = False
+    if outer:
+        v = outer[0].target.id
+        for n in outer[0].body:
+            if isinstance(n, ast.If) and isinstance(n.test, ast.Compare) and len(n.test.ops) == 1 and isinstance(n.test.ops[0], ast.Eq) and isinstance(n.test.left, ast.Subscript) \
+                    and src(n.test.left.slice) == v and const(n.test.comparators[0]) == -1:
+                ok = True
     ctx.decide(ok, "C11-R5", outer[0] if outer else fn, TOPF, "Topology.find_molecules", "a search starts from every atom not yet tagged", "", "not every atom is assigned to a molecule")
     # the callers use find_molecules() for the units they move
     im = ctx.py.func(TRAJ, "Trajectory.image_molecules")
     ok = "self._topology.find_molecules()" in src(im) or "self.topology.find_molecules()" in src(im)
     ctx.decide(ok, "C11-R5", im, TRAJ, "Trajectory.image_molecules", "rigid units come from find_molecules()", "", "image_molecules no longer takes its units from Topology.find_molecules")
+
+
+# ---------------------------------------------------------------------------------------------------
+def r1_by_evaluation(ctx):
+    """make_molecules_whole / image_molecules evaluated (sa/tensym.py) on a model trajectory whose topology lists its bonds out of order:
+    the mutating kernel receives the coordinates of `result` - self when inplace, a deep copy (self[:]) otherwise - and that object is what is
+    returned; the cell handed over is result's; the default bond list is the topology's bonds as index pairs sorted by the first atom."""
+    from ..tensym import TenSym, Ten, Obj, Unsupported as TUnsupported, ShapeError
+    from ..poly import Poly, Rat
+    mod = ctx.py.mod(TRAJ)
+    methods = {q.split(".", 1)[1]: f for q, f in mod.functions.items() if q.startswith("Trajectory.") and q.count(".") == 1}
+    for q, kernel in (("Trajectory.make_molecules_whole", "_geometry.whole_molecules"), ("Trajectory.image_molecules", "_geometry.image_molecules")):
+        fn = ctx.py.func(TRAJ, q)
+        for inplace in (False, True):
+            what = "%s(inplace=%s): kernel works on %s, which is returned; bonds sorted by first atom" % (q.split(".")[1], inplace, "self" if inplace else "a deep copy of self")
+            atoms = [Obj(index=i) for i in range(5)]
+            bonds = [(atoms[3], atoms[4]), (atoms[0], atoms[2]), (atoms[2], atoms[1]), (atoms[1], atoms[0])]
+            mols = [[atoms[0], atoms[1], atoms[2]], [atoms[3], atoms[4]]]
+            top = Obj(bonds=bonds, atoms=atoms)
+            top.guess_anchor_molecules = lambda: [mols[0]]
+            top.find_molecules = lambda: list(mols)
+            xyz, vec = Ten.sym("x", (2, 5, 3)), Ten.sym("box", (2, 3, 3))
+
+            def ctor(xyz_, topology, time=None, unitcell_lengths=None, unitcell_angles=None, **kw):
+                o = Obj(_xyz=xyz_, _topology=topology, _time=time, _unitcell_lengths=unitcell_lengths, _unitcell_angles=unitcell_angles, _rmsd_traces=None, _methods=methods, _tag="new", _lenient=True)
+                o._getters = getters
+                o._ctor = ctor
+                return o
+            getters = {"xyz": lambda s_: s_._xyz, "time": lambda s_: s_._time, "topology": lambda s_: s_._topology, "top": lambda s_: s_._topology,
+                       "unitcell_lengths": lambda s_: s_._unitcell_lengths, "unitcell_angles": lambda s_: s_._unitcell_angles,
+                       "unitcell_vectors": lambda s_: Ten(vec.shape, vec.data) if s_._unitcell_lengths is not None else None}
+            me = ctor(xyz, top, Ten.sym("t", (2,)), Ten.sym("len", (2, 3)), Ten.sym("ang", (2, 3)))
+            me._tag = "self"
+            log = {}
+
+            def kern(ev, call):
+                log["args"] = [ev.ex(a) for a in call.args]
+                return None
+            ev = TenSym({}, models={kernel: kern, "deepcopy": lambda e_, c_: Obj(tag="copy"), "copy.deepcopy": lambda e_, c_: Obj(tag="copy")})
+            try:
+                got = ev.run_fn(fn, self=me, inplace=inplace)
+                pr = []
+                args = log.get("args")
+                if not args:
+                    pr.append("%s is not called" % kernel)
+                else:
+                    arr = args[0]
+                    if inplace:
+                        if got is not me:
+                            pr.append("inplace=True does not return self")
+                        if arr is not me._xyz:
+                            pr.append("inplace=True: the kernel does not work on self's own coordinate array")
+                    else:
+                        if not isinstance(got, Obj) or got is me:
+                            pr.append("inplace=False returns self")
+                        elif arr is not got._xyz:
+                            pr.append("the array the kernel moves in place is not the coordinate array of the trajectory that is returned")
+                        if isinstance(arr, Ten) and (arr is me._xyz or arr.view):
+                            pr.append("inplace=False: the kernel works on %s: the original trajectory is modified" % ("self's own coordinate array" if arr is me._xyz else "a view of self's coordinates (a slice that did not copy)"))
+                        if isinstance(arr, Ten) and ev.first_difference(arr, xyz) is not None:
+                            pr.append("the copy handed to the kernel does not hold all frames and atoms of self")
+                    if not (isinstance(args[1], Ten) and ev.first_difference(args[1], vec) is None):
+                        pr.append("the cell handed to the kernel is not the trajectory's unitcell_vectors")
+                    sb = args[-1]
+                    want = [(0, 2), (1, 0), (2, 1), (3, 4)]
+                    gotb = [(ev.pyval(sb.at([k, 0])), ev.pyval(sb.at([k, 1]))) for k in range(sb.shape[0])] if isinstance(sb, Ten) and sb.ndim == 2 else None
+                    ctx.decide(gotb == want, "C11-R4", fn, TRAJ, q, "%s(inplace=%s): default bond list = the topology's bonds as index pairs sorted by the first atom" % (q.split(".")[1], inplace), "",
+                               "the default bond list is %s; sorted by the index of the first atom it is %s (make_whole walks the bonds in one pass and can leave molecules broken otherwise)" % (gotb, want))
+                ctx.decide(not pr, "C11-R1", fn, TRAJ, q, what, "", "; ".join(pr))
+            except ShapeError as e:
+                ctx.violated("C11-R1", fn, TRAJ, q, what, "array operations do not fit: %s" % e)
+                ctx.undecided("C11-R4", fn, TRAJ, q, "default bond list", "not reached")
+            except TUnsupported as e:
+                ctx.undecided("C11-R1", fn, TRAJ, q, what, "not evaluable: %s" % e)
+                ctx.undecided("C11-R4", fn, TRAJ, q, "default bond list", "not evaluable: %s" % e)
+
+
+def r4_no_topology_memo_on_trajectory(ctx):
+    """The topology is a separate object that can be edited in place (add_bond, delete_atom_by_index ...), so nothing a Trajectory computes from
+    it may be parked on the Trajectory: a field filled from self._topology / self.topology is stale after the next edit of the topology and no
+    setter of the Trajectory can know.  Expected count zero; a built-in positive example is run on every check."""
+    ctl = ast.parse("class T:\n    def m(self):\n        if self._memo is None:\n            self._memo = sorted(self._topology.bonds)\n        return self._memo\n").body[0].body[0]
+
+    def memo_stores(fn):
+        out = []
+        for n in walk_no_nested(fn):
+            if isinstance(n, ast.Assign):
+                for t in n.targets:
+                    if isinstance(t, ast.Attribute) and isinstance(t.value, ast.Name) and t.value.id == "self" and t.attr not in ("_topology", "topology", "top"):
+                        roots = set()
+                        for x in ast.walk(n.value):
+                            d = dotted(x) if isinstance(x, ast.Attribute) else None
+                            if d and d.startswith(("self._topology", "self.topology", "self.top")):
+                                roots.add(d)
+                        # one level through locals
+                        for x in ast.walk(n.value):
+                            if isinstance(x, ast.Name):
+                                for a in walk_no_nested(fn):
+                                    if isinstance(a, ast.Assign) and any(isinstance(tt, ast.Name) and tt.id == x.id for tt in a.targets):
+                                        for y in ast.walk(a.value):
+                                            d = dotted(y) if isinstance(y, ast.Attribute) else None
+                                            if d and d.startswith(("self._topology", "self.topology", "self.top")):
+                                                roots.add(d)
+                        if roots:
+                            out.append((n, t.attr, sorted(roots)))
+        return out
+    if len(memo_stores(ctl)) != 1:
+        raise AnalysisError("r4_no_topology_memo_on_trajectory: the built-in positive example is no longer recognised")
+    mod = ctx.py.mod(TRAJ)
+    bad = []
+    n_fn = 0
+    for q, fn in sorted(mod.functions.items()):
+        if not q.startswith("Trajectory.") or q.endswith((".setter", ".__init__")):
+            continue
+        n_fn += 1
+        for node, attr, roots in memo_stores(fn):
+            bad.append((q, node, attr, roots))
+    ctx.decide(not bad, "C11-R4", bad[0][1] if bad else mod.tree, TRAJ, bad[0][0] if bad else "Trajectory", "no Trajectory method stores topology-derived data on the trajectory (%d methods)" % n_fn, "",
+               "`self.%s` is filled from %s and kept: the topology can be edited in place afterwards (add_bond, delete_atom_by_index), and the kept value - e.g. the bond list handed to make_whole - is then the old one"
+               % (bad[0][2] if bad else "", bad[0][3] if bad else ""))
